@@ -5,12 +5,14 @@ set -e
 cd "$(dirname "$0")"
 mkdir -p evidence replay
 fail=0
+tmpd=$(mktemp -d)          # (java.io.tmpdir of the SANY runs: removed below, nothing stays behind in /tmp)
 for f in spec/*.tla; do
   m=$(basename "$f" .tla)
-  if ! (cd spec && java -cp /opt/veriftools/tla/tla2tools.jar:/opt/veriftools/tla/CommunityModules-deps.jar tla2sany.SANY "$m.tla" > /tmp/sany_$$.log 2>&1) || grep -q -E "Semantic errors|\*\*\* Errors|Parse Error|Fatal" /tmp/sany_$$.log; then
+  if ! (cd spec && java -Djava.io.tmpdir="$tmpd" -cp /opt/veriftools/tla/tla2tools.jar:/opt/veriftools/tla/CommunityModules-deps.jar tla2sany.SANY "$m.tla" > /tmp/sany_$$.log 2>&1) || grep -q -E "Semantic errors|\*\*\* Errors|Parse Error|Fatal" /tmp/sany_$$.log; then
     echo "SANY FAILED: $m"; cat /tmp/sany_$$.log; fail=1
   fi
 done
 rm -f /tmp/sany_$$.log
+rm -rf "$tmpd"
 /venv/bin/python -c "import sys; sys.path.insert(0,'.'); import harness.tlaval, harness.tlc, harness.build, harness.core"
 exit $fail
